@@ -578,6 +578,10 @@ where
         self.metrics.record_execution_attempt();
 
         let tx_env = self.txs[txid].clone();
+        // Only an attempt that starts at the commit head reads exclusively committed state; its
+        // failure is then the in-order failure. An attempt that merely ends there may have read
+        // state its predecessor has since replaced.
+        let started_at_commit_head = self.scheduler_ctx.committed_idx() == txid;
         #[cfg(feature = "verif-hooks")]
         crate::verif::rt::pt2("exec_begin", txid, incarnation);
         let IncarnationExecution { result, accesses } =
@@ -700,7 +704,7 @@ where
                     self.metrics.record_evm_error_conflict();
                     #[cfg(feature = "verif-hooks")]
                     crate::verif::rt::pt1("err_read_commit", txid);
-                    if self.scheduler_ctx.committed_idx() == txid {
+                    if started_at_commit_head {
                         if invalid_transaction {
                             self.abort(AbortReason::FallbackSequential);
                         } else {
